@@ -138,7 +138,7 @@ def load_corpus():
 
 
 def run(ctx):
-    n = 500 if ctx.tier == "quick" else 10000
+    n = ctx.n(500, 10000)
     rng = core.Rng(ctx.seed)
     corpus = load_corpus()
     cases = corpus + [gen_case(rng.fork("case%d" % i)) for i in range(n)]
